@@ -174,7 +174,9 @@ def run(ctx):
         mcargs = cert[2][0][2]
         okc = mcargs[1] == rfields.get("version") or (mcargs[1] == ("param", rfn.path, 1) and rfields.get("version") == ("param", rfn.path, 1))
         okk = mcargs[2] == rfields.get("online_key") or (mcargs[2][0] == "obj" and rfields.get("online_key") == mcargs[2])
-        okc = okc and okk and mcargs[0] == ("param", rfn.path, 3)
+        # the long-term key parameter of Responder::new, by type (the parameter list is not part of the property)
+        ltkp = next((i for i in range(1, rfn.nargs + 1) if "LongTermKey" in rfn.locals[i]["ty"]), 3)
+        okc = okc and okk and mcargs[0] == ("param", rfn.path, ltkp)
     ctx.check("sign-sequence", "Responder::new/certifies-stored-key-and-version", okc,
               "cert_bytes = encode(ltk.make_cert(version stored, online key stored))",
               "Responder's certificate is not made for the online key / version it stores: " + fmt(cert), rfn.loc(rbb, ridx))
@@ -391,6 +393,11 @@ def run(ctx):
     # Responder passes config.fault_percentage()
     gr = rfields.get("grease")
     okgr = is_call(gr, "Grease::new") and is_call(gr[2][0]) and gr[2][0][1].endswith("fault_percentage")
+    if not okgr and is_call(gr, "Grease::new") and isinstance(gr[2][0], tuple) and gr[2][0][0] == "param" and gr[2][0][1] == rfn.path:
+        # the percentage passed in by the caller(s) of Responder::new, who read it from the configuration
+        vals_ = {fmt(W.expand(W.ev(cp).call_args(cbb)[gr[2][0][2] - 1])) for (cp, cbb) in P.callers(rfn.path)}
+        cands = [W.expand(W.ev(cp).call_args(cbb)[gr[2][0][2] - 1]) for (cp, cbb) in P.callers(rfn.path)]
+        okgr = bool(cands) and all(is_call(values.strip_payload(c)) and values.strip_payload(c)[1].endswith("fault_percentage") for c in cands)
     ctx.check("grease-gating", "Responder::new/grease-from-config-fault-percentage", okgr, "grease = Grease::new(config.fault_percentage())",
               "Responder's fault injector is %s" % fmt(gr), rfn.loc(rbb, ridx))
     NDI = "roughenough::message::RtMessage::new_deliberately_invalid"
